@@ -33,6 +33,12 @@ pub open spec fn kept_or_dead(o: AnnotationStore, n: AnnotationStore) -> bool {
     && (forall|x: int, h: AnnotationHandle| rm_row(o.dataset_annotation_metamap, x).contains(h) ==> #[trigger] rm_row(n.dataset_annotation_metamap, x).contains(h) || !live_a(n.annotations@, h))
     && (forall|x: int, y: int, h: AnnotationHandle| o.textrelationmap.cell(x, y).contains(h) ==> #[trigger] n.textrelationmap.cell(x, y).contains(h) || !live_a(n.annotations@, h))
     && (forall|x: AnnotationHandle, h: AnnotationHandle| bt_row(o.annotation_annotation_map, x).contains(h) ==> #[trigger] bt_row(n.annotation_annotation_map, x).contains(h) || !live_a(n.annotations@, h))
+    && (forall|x: int, y: int, h: AnnotationHandle| o.key_annotation_metamap.cell(x, y).contains(h) ==> #[trigger] n.key_annotation_metamap.cell(x, y).contains(h) || !live_a(n.annotations@, h))
+    && (forall|x: int, y: int, h: AnnotationHandle| o.data_annotation_metamap.cell(x, y).contains(h) ==> #[trigger] n.data_annotation_metamap.cell(x, y).contains(h) || !live_a(n.annotations@, h))
+}
+/// the removal of an annotation adds nothing to the row of a dataset in dataset_annotation_metamap
+pub open spec fn no_new_dataset_entries(o: AnnotationStore, n: AnnotationStore) -> bool {
+    forall|x: int| #[trigger] rm_row(o.dataset_annotation_metamap, x).len() == 0 ==> rm_row(n.dataset_annotation_metamap, x).len() == 0
 }
 pub proof fn lemma_kept_trans(a: AnnotationStore, b: AnnotationStore, c: AnnotationStore)
     requires kept_or_dead(a, b), kept_or_dead(b, c), shrinks(b.annotations@, c.annotations@),
@@ -49,6 +55,12 @@ pub proof fn lemma_kept_trans(a: AnnotationStore, b: AnnotationStore, c: Annotat
     }
     assert forall|x: AnnotationHandle, h: AnnotationHandle| bt_row(a.annotation_annotation_map, x).contains(h) implies #[trigger] bt_row(c.annotation_annotation_map, x).contains(h) || !live_a(c.annotations@, h) by {
         if !bt_row(b.annotation_annotation_map, x).contains(h) { assert(!live_a(b.annotations@, h)); }
+    }
+    assert forall|x: int, y: int, h: AnnotationHandle| a.key_annotation_metamap.cell(x, y).contains(h) implies #[trigger] c.key_annotation_metamap.cell(x, y).contains(h) || !live_a(c.annotations@, h) by {
+        if !b.key_annotation_metamap.cell(x, y).contains(h) { assert(!live_a(b.annotations@, h)); }
+    }
+    assert forall|x: int, y: int, h: AnnotationHandle| a.data_annotation_metamap.cell(x, y).contains(h) implies #[trigger] c.data_annotation_metamap.cell(x, y).contains(h) || !live_a(c.annotations@, h) by {
+        if !b.data_annotation_metamap.cell(x, y).contains(h) { assert(!live_a(b.annotations@, h)); }
     }
 }
 pub proof fn lemma_kept_refl(a: AnnotationStore)
@@ -72,6 +84,7 @@ impl AnnotationStore {
             r is Ok ==> !live_a(final(self).annotations@, h),
             shrinks(old(self).annotations@, final(self).annotations@),
             kept_or_dead(*old(self), *final(self)),
+            no_new_dataset_entries(*old(self), *final(self)),
     { unimplemented!() }
 
     /// R-outline: stands for the first loop of StoreCallbacks<AnnotationDataSet>::preremove - `for annotation in
@@ -94,7 +107,7 @@ pub fn vx_clone_handles(v: &Vec<AnnotationHandle>) -> (r: Vec<AnnotationHandle>)
 /// R-outline: stands for `let mut annotations: BTreeSet<AnnotationHandle> = BTreeSet::new(); annotations.extend(map.data.iter().flatten());`
 /// - every handle listed in any row of the inner map (as a vector; duplicates removed by the set do not matter here)
 #[verifier::external_body]
-pub fn vx_flatten_rows(map: &RelationMap<TextSelectionHandle, AnnotationHandle>) -> (r: Vec<AnnotationHandle>)
+pub fn vx_flatten_rows<B>(map: &RelationMap<B, AnnotationHandle>) -> (r: Vec<AnnotationHandle>)
     ensures forall|j: int, k: int| 0 <= j < map.data@.len() && 0 <= k < map.data@[j]@.len() ==> r@.contains(#[trigger] map.data@[j]@[k]),
 { unimplemented!() }
 '''
@@ -148,9 +161,47 @@ SET_END = '''proof {
         }'''
 
 
-def casc(lst, base=None):
+SET_END3 = '''proof {
+            let o = *old(self); let x = handle.idx() as int;
+            assert forall|y: int, k: int| 0 <= k < o.MAP.cell(x, y).len() implies !live_a(self.annotations@, #[trigger] o.MAP.cell(x, y)[k]) by {
+                let h = o.MAP.cell(x, y)[k];
+                assert(o.MAP.cell(x, y).contains(h));
+                if MID.MAP.cell(x, y).contains(h) {
+                    let w = choose|w: int| 0 <= w < MID.MAP.cell(x, y).len() && MID.MAP.cell(x, y)[w] == h;
+                    assert(LST.contains(h));
+                    let q = choose|q: int| 0 <= q < LST.len() && LST[q] == h;
+                    assert(!live_a(self.annotations@, LST[q]));
+                } else {
+                    assert(!live_a(MID.annotations@, h));
+                }
+            }
+        }'''
+
+
+AFTER_RM = '''proof {
+            let o = *old(self); let x0 = handle.idx() as int;
+            assert forall|x: int, h: AnnotationHandle| rm_row(o.MAP, x).contains(h) implies #[trigger] rm_row(self.MAP, x).contains(h) || !live_a(self.annotations@, h) by {
+                if x == x0 { let k = choose|k: int| 0 <= k < rm_row(o.MAP, x).len() && rm_row(o.MAP, x)[k] == h; assert(!live_a(self.annotations@, rm_row(o.MAP, x0)[k])); }
+                else { assert(rm_row(self.MAP, x) == rm_row(vx_b.MAP, x)) by { if 0 <= x < vx_b.MAP@.len() { assert(self.MAP@[x] == vx_b.MAP@[x]); } } }
+            }
+            assert(kept_or_dead(o, *self));
+        }'''
+
+AFTER_TR = '''proof {
+            let o = *old(self); let x0 = handle.idx() as int;
+            assert forall|x: int, y: int, h: AnnotationHandle| o.MAP.cell(x, y).contains(h) implies #[trigger] self.MAP.cell(x, y).contains(h) || !live_a(self.annotations@, h) by {
+                if x == x0 { let k = choose|k: int| 0 <= k < o.MAP.cell(x, y).len() && o.MAP.cell(x, y)[k] == h; assert(!live_a(self.annotations@, o.MAP.cell(x0, y)[k])); }
+                else { assert(self.MAP.cell(x, y) == vx_b.MAP.cell(x, y)) by { if 0 <= x < vx_b.MAP.data@.len() { assert(self.MAP.data@[x] == vx_b.MAP.data@[x]); } } }
+            }
+            assert(kept_or_dead(o, *self));
+        }'''
+
+
+def casc(lst, base=None, keep_cleared=False):
     """loop over a pre-collected list of annotation handles: everything processed so far is gone, nothing is created"""
     extra = [('since_phase_start', f'shrinks({base}.annotations@, self.annotations@)')] if base else []
+    if keep_cleared:
+        extra.append(('dataset_row_stays_cleared', 'rm_row(self.dataset_annotation_metamap, handle.idx() as int).len() == 0'))
     return dict(invariant=extra + [
         ('gone_so_far', f'forall|j: int| 0 <= j < vx_it.index@ ==> !live_a(self.annotations@, #[trigger] {lst}@[j])'),
         ('shrinks', 'shrinks(old(self).annotations@, self.annotations@)'),
@@ -165,7 +216,7 @@ def build():
     common.target64(u)
     common.std_specs(u)
     common.handle_trait(u, P)
-    for h in ('AnnotationHandle', 'TextResourceHandle', 'AnnotationDataSetHandle', 'TextSelectionHandle'):
+    for h in ('AnnotationHandle', 'TextResourceHandle', 'AnnotationDataSetHandle', 'TextSelectionHandle', 'DataKeyHandle', 'AnnotationDataHandle'):
         common.handle_impl(u, h, P)
     u.trusted_text(u_map.VX_POSITION, 'external_body vx_position: std Iterator::position semantics + structural == on handles (R-outline)')
     u_map.emit_relationmap(u, P, with_canary=False, pushed=True)
@@ -173,7 +224,7 @@ def build():
     u.item('src/error.rs', 'enum', 'StamError', keep_variants=['HandleError', 'NotFoundError'], keep_derives=['Debug'],
            rewrites=[('R-field', r'NotFoundError\(Type, &\'static str\)', "NotFoundError(&'static str)")])
     u.item('src/store.rs', 'type', 'Store')
-    u.item(AS, 'struct', 'AnnotationStore', keep_fields=['annotations', 'textrelationmap', 'resource_annotation_metamap', 'dataset_annotation_metamap', 'annotation_annotation_map'], keep_derives=[])
+    u.item(AS, 'struct', 'AnnotationStore', keep_fields=['annotations', 'textrelationmap', 'resource_annotation_metamap', 'dataset_annotation_metamap', 'annotation_annotation_map', 'key_annotation_metamap', 'data_annotation_metamap'], keep_derives=[])
     u.trusted_text(STUBS, 'external_body: removal of one annotation (recursive; assumed: gone on Ok, only-shrinks), has(), the scan for annotations using a dataset, Vec::clone, flattening of index rows into a set')
 
     HAS = ('R-request', r'<AnnotationStore as StoreFor<Annotation>>::has\(self, a_handle\)', 'self.vx_has_annotation(a_handle)')
@@ -204,16 +255,27 @@ def build():
     u.impl(AS, 'impl private::StoreCallbacks<AnnotationDataSet> for AnnotationStore', [
         Fn('preremove', emit_name='preremove__dataset', props=P, ret='r',
            rewrites=[HAS, REM,
-                     ('R-outline', r'(?s)let mut annotations: BTreeSet<AnnotationHandle> = BTreeSet::new\(\);\s*for annotation in <AnnotationStore as StoreFor<Annotation>>::iter\(self\) \{.*?\n        \}\n',
+                     ('R-outline', r'(?s)let mut annotations: BTreeSet<AnnotationHandle> = BTreeSet::new\(\);\s*for annotation in <AnnotationStore as StoreFor<Annotation>>::iter\(self\) \{\s*if annotation\s*\.data\(\)\s*\.any\(\|\(set_handle, _\)\| \*set_handle == handle\)\s*\{\s*annotations\.insert\(annotation\.handle_or_err\(\)\?\);\s*\}\s*\}\n',
                       'let annotations = self.vx_annotations_using_dataset(handle)?; proof { vx_l1 = annotations@; }\n\n\n\n\n\n\n\n\n'),
                      ('R-outline', r'if let Some\(annotations\) = self\.dataset_annotation_metamap\.data\.get\(handle\.as_usize\(\)\) \{', 'if let Some(annotations) = self.dataset_annotation_metamap.data.get(handle.as_usize()) { let vx_list2 = vx_clone_handles(annotations); proof { vx_l2 = vx_list2@; }'),
                      ('R-outline', r'annotations\.clone\(\)', 'vx_list2'),
+                     ('R-outline', r'(?s)if let Some\(map\) = self\.key_annotation_metamap\.data\.get\(handle\.as_usize\(\)\) \{\s*let mut annotations: BTreeSet<AnnotationHandle> = BTreeSet::new\(\);\s*annotations\.extend\(map\.data\.iter\(\)\.flatten\(\)\);\s*for a_handle in annotations \{',
+                      'if let Some(map) = self.key_annotation_metamap.data.get(handle.as_usize()) {\n let vx_list3 = vx_flatten_rows(map); proof { vx_l3 = vx_list3@; }\n for a_handle in vx_it: vx_list3 { let ghost vx_pre = self.annotations@; let ghost vx_pre_store = *self;'),
+                     ('R-outline', r'(?s)if let Some\(map\) = self\.data_annotation_metamap\.data\.get\(handle\.as_usize\(\)\) \{\s*let mut annotations: BTreeSet<AnnotationHandle> = BTreeSet::new\(\);\s*annotations\.extend\(map\.data\.iter\(\)\.flatten\(\)\);\s*for a_handle in annotations \{',
+                      'if let Some(map) = self.data_annotation_metamap.data.get(handle.as_usize()) {\n let vx_list4 = vx_flatten_rows(map); proof { vx_l4 = vx_list4@; }\n for a_handle in vx_it: vx_list4 { let ghost vx_pre = self.annotations@; let ghost vx_pre_store = *self;'),
                      ('R-forname', r'for a_handle in annotations \{', 'for a_handle in vx_it: annotations { let ghost vx_pre = self.annotations@; let ghost vx_pre_store = *self;'),
                      ('R-forname', r'for a_handle in vx_list2 \{', 'for a_handle in vx_it: vx_list2 { let ghost vx_pre = self.annotations@; let ghost vx_pre_store = *self;')],
-           loops={r'vx_it: annotations\b': casc('annotations'), r'vx_it: vx_list2': casc('vx_list2', 'vx_mid')},
-           prologue='proof { lemma_kept_refl(*self); } let ghost mut vx_l1: Seq<AnnotationHandle> = Seq::empty(); let ghost mut vx_l2: Seq<AnnotationHandle> = Seq::empty();',
+           loops={r'vx_it: annotations\b': casc('annotations'), r'vx_it: vx_list2': casc('vx_list2', 'vx_mid'), r'vx_it: vx_list3': casc('vx_list3', 'vx_mid3', True), r'vx_it: vx_list4': casc('vx_list4', 'vx_mid4', True)},
+           prologue='proof { lemma_kept_refl(*self); } let ghost mut vx_l1: Seq<AnnotationHandle> = Seq::empty(); let ghost mut vx_l2: Seq<AnnotationHandle> = Seq::empty(); let ghost mut vx_l3: Seq<AnnotationHandle> = Seq::empty(); let ghost mut vx_l4: Seq<AnnotationHandle> = Seq::empty();',
            before=[(r're:if let Some\(annotations\) = self\.dataset_annotation_metamap', 'let ghost vx_mid = *self;'),
-                   ('self.dataset_annotation_metamap.remove_all(handle);', SET_END, None, 'cascade')],
+                   ('self.dataset_annotation_metamap.remove_all(handle);', SET_END + ' let ghost vx_b = *self;', None, 'cascade'),
+                   (r're:if let Some\(map\) = self\.key_annotation_metamap', 'let ghost vx_mid3 = *self;'),
+                   (r're:if let Some\(map\) = self\.data_annotation_metamap', 'let ghost vx_mid4 = *self;'),
+                   ('self.key_annotation_metamap.remove_all(handle);', SET_END3.replace('MAP', 'key_annotation_metamap').replace('MID', 'vx_mid3').replace('LST', 'vx_l3') + ' let ghost vx_b = *self;', None, 'cascade'),
+                   ('self.data_annotation_metamap.remove_all(handle);', SET_END3.replace('MAP', 'data_annotation_metamap').replace('MID', 'vx_mid4').replace('LST', 'vx_l4') + ' let ghost vx_b = *self;', None, 'cascade')],
+           after=[('self.dataset_annotation_metamap.remove_all(handle);', AFTER_RM.replace('MAP', 'dataset_annotation_metamap'), None, 'cascade'),
+                  ('self.key_annotation_metamap.remove_all(handle);', AFTER_TR.replace('MAP', 'key_annotation_metamap'), None, 'cascade'),
+                  ('self.data_annotation_metamap.remove_all(handle);', AFTER_TR.replace('MAP', 'data_annotation_metamap'), None, 'cascade')],
            ensures=[('users_gone', f'r is Ok ==> forall|a: AnnotationHandle| live_a({O}.annotations@, a) && uses_set({O}.annotations@[a.idx() as int].unwrap(), handle) ==> !live_a({N}.annotations@, a)'),
                     ('metadata_annotations_gone', f'r is Ok ==> forall|k: int| 0 <= k < rm_row({O}.dataset_annotation_metamap, handle.idx() as int).len() ==> !live_a({N}.annotations@, #[trigger] rm_row({O}.dataset_annotation_metamap, handle.idx() as int)[k])'),
                     ('row_cleared', f'r is Ok ==> rm_row({N}.dataset_annotation_metamap, handle.idx() as int).len() == 0'),
